@@ -15,7 +15,9 @@ Oracle: the first datagram of a fresh client is a discovery probe; later
 requests carry the discovered engine id as security engine id and as context
 engine id; every operation returns the agent's value (what succeeds right after
 discovery succeeds at any later point); a discovery reply with a foreign
-message id raises InvalidResponseId and nothing else is sent.
+message id raises InvalidResponseId and nothing else is sent; no request reaches
+the agent outside its time window unless the agent rebooted since the last
+successful operation (then at most one).
 """
 
 from .. import ops, world
@@ -73,6 +75,7 @@ def run_history(level, hist):
     out = []
     outcomes = []
     rebooted = False
+    reboot_pending = False  # the agent rebooted since the last successful operation
     switched = False
     disc_at = None
     for i, ev in enumerate(hist):
@@ -93,6 +96,7 @@ def run_history(level, hist):
         elif ev[0] == "reboot":
             ag.reboot()
             rebooted = disc_at is not None
+            reboot_pending = disc_at is not None
         else:
             name = ev[1]
             n0 = len(ag.log)
@@ -131,6 +135,16 @@ def run_history(level, hist):
                 sc = m.get("scoped")
                 if sc is not None and e.get("verdict") == "ok" and sc["context_engine_id"] != ag.engine_id:
                     bad("context-engine-id-is-not-the-discovered-one", got=sc["context_engine_id"])
+            # what is *sent* must stay inside the agent's window as its clock
+            # advances: only a reboot (which no client can foresee) may cost
+            # one refused request
+            outside = [e for e in new if e.get("verdict") == "not-in-time-window"]
+            if outside and not reboot_pending:
+                bad("request-outside-the-time-window-without-a-reboot", sent=[(e["msg"]["usm"]["boots"], e["msg"]["usm"]["time"]) for e in outside], agent=(ag.boots, ag.engine_time))
+            elif len(outside) > 1:
+                bad("several-requests-outside-the-time-window-after-one-reboot", count=len(outside))
+            if exc is None:
+                reboot_pending = False
             ok = exc is None
             if ok and name in ("get", "set") and result != EXPECT[name]:
                 bad("wrong-value-returned", got=result)
